@@ -443,3 +443,10 @@ Print Assumptions C12_increment_any_times_partial.
 Theorem C12_source_tie : C12_source_tie_statement.
 Proof. exact C12_source_tie_proof. Qed.
 Print Assumptions C12_source_tie.
+
+(** The decision-critical functions of the anchored code have exactly the decisions the source tie knows about
+    (go2coq manifests, regenerated from /repo on every check; statement in SourceManifest.v). *)
+From Kardia Require Import C12.SourceManifest.
+Theorem C12_source_manifest : C12_source_manifest_statement.
+Proof. exact C12_source_manifest_proof. Qed.
+Print Assumptions C12_source_manifest.
